@@ -1,7 +1,12 @@
+#![allow(dead_code)]
 //! verif <id> --tier quick|thorough [--root /verif]   |   verif replay <file>
 mod common;
 mod explore;
+mod p_clamp;
 mod p_lfo;
+mod p_midi;
+mod sr;
+mod p_quant;
 
 use common::*;
 use std::path::PathBuf;
@@ -47,17 +52,38 @@ fn main() {
         std::process::exit(replay(&rest));
     }
     let ctx = Ctx { id: args[1].clone(), tier, seed, root, threads, start: Instant::now() };
-    let (rep, text) = match ctx.id.as_str() {
-        "C10" => (p_lfo::c10(&ctx), "every phase-counter value of the real oscillator is visited through tick() and judged against the exact waveform definitions"),
-        "C11" => (p_lfo::c11(&ctx), "exhaustive enumeration of set_phase inputs, a frequency grid, and bounded-depth exploration of call histories of the real oscillator"),
-        "C12" => (p_lfo::c12(&ctx), "every adjacent pair of phase-counter values (and every start phase for larger increments) of the real oscillator is compared against the slope bound"),
-        other => {
-            eprintln!("MACHINERY: unknown property id {}", other);
+    let r = std::panic::catch_unwind(std::panic::AssertUnwindSafe(|| run(&ctx)));
+    match r {
+        Ok(code) => std::process::exit(code),
+        Err(e) => {
+            eprintln!("MACHINERY: the harness itself panicked: {} ({})", panic_msg(&e), LAST_PANIC.lock().map(|g| g.clone()).unwrap_or_default());
             std::process::exit(2);
         }
+    }
+}
+
+fn run(ctx: &Ctx) -> i32 {
+    let ctx: &Ctx = ctx;
+    let (rep, text) = match ctx.id.as_str() {
+        "C10" => (p_lfo::c10(ctx), "every phase-counter value of the real oscillator is visited through tick() and judged against the exact waveform definitions"),
+        "C11" => (p_lfo::c11(ctx), "exhaustive enumeration of set_phase inputs, a frequency grid, and bounded-depth exploration of call histories of the real oscillator"),
+        "C12" => (p_lfo::c12(ctx), "every adjacent pair of phase-counter values (and every start phase for larger increments) of the real oscillator is compared against the slope bound"),
+        "C20" => (p_clamp::c20(ctx), "both float conversions over all 2^32 bit patterns, note and channel bytes over all 256 values, twin envelopes over all short event scripts"),
+        "C07" => (p_quant::c07(ctx), "all ordered scale pairs x input grid with a real scale edit between two conversions, plus BFS to fixpoint over edit/convert histories of the real quantizer"),
+        "C08" => (p_quant::c08(ctx), "all 4095 scales x the microvolt input lattice on a fresh real quantizer against an exact integer nearest-note reference"),
+        "C09" => (p_quant::c09(ctx), "all scales x previous conversions x second inputs around the hysteresis window, differential against a fresh real quantizer, plus BFS to fixpoint over histories"),
+        "C19" => (p_quant::c19(ctx), "record consistency evaluated on every conversion of the chromatic microvolt sweep and of the hysteresis exploration"),
+        "C04" => (p_midi::c04(ctx), "BFS to fixpoint over note-message histories of the real receiver against a list-of-outstanding-notes reference model"),
+        "C05" => (p_midi::c05(ctx), "BFS to fixpoint over note messages and edge polls of the real receiver against reference latches"),
+        "C06" => (p_midi::c06(ctx), "byte-level BFS to fixpoint plus all 1- and 2-byte deviations of a stream catalogue, twin receivers around an independent MIDI 1.0 decoder"),
+        "C18" => (p_midi::c18(ctx), "all controller numbers x values x channels and all pitch-bend values on the real receiver against the routing table, plus BFS to fixpoint over controller histories"),
+        other => {
+            eprintln!("MACHINERY: unknown property id {}", other);
+            return 2;
+        }
     };
-    let out = finish(&ctx, rep, text);
-    std::process::exit(out.exit);
+    let out = finish(ctx, rep, text);
+    out.exit
 }
 
 fn replay(rest: &[String]) -> i32 {
@@ -85,6 +111,9 @@ fn replay(rest: &[String]) -> i32 {
     let run = || -> Vec<String> {
         match machine {
             "lfo" => p_lfo::replay(cfg, &ops),
+            "midi" => p_midi::replay(cfg, &ops),
+            "clamp" => p_clamp::replay(cfg, &ops),
+            "quantizer" => p_quant::replay(cfg, &ops),
             _ => vec![format!("unknown machine '{}'", machine)],
         }
     };
